@@ -863,7 +863,23 @@ macro_rules! run_ops {
     ($dev:expr, $sim:expr, $secs:expr, $quiet:expr, $out:expr) => {{
         let mut dev = $dev;
         for sec in $secs {
-            let mut toks: Vec<&str> = sec.split(' ').filter(|x| !x.is_empty()).collect();
+            let all: Vec<&str> = sec.split(' ').filter(|x| !x.is_empty()).collect();
+            // `@pos=..`, `@neg=..`, `@rHH=VV`: what the DEVICE does by itself before this call
+            // (new sensor responses, a read-only register changing) - no bus traffic
+            for t in all.iter().filter(|x| x.starts_with('@')) {
+                let mut s = $sim.borrow_mut();
+                let (k, v) = t[1..].split_once('=').expect("env token");
+                match k {
+                    "pos" => s.pos = parse_hex(v),
+                    "neg" => s.neg = parse_hex(v),
+                    _ => {
+                        let a = usize::from_str_radix(&k[1..], 16).expect("env register");
+                        assert!(k.starts_with('r') && a < 0x19, "env register");
+                        s.regs[a] = u8::from_str_radix(v, 16).expect("env value");
+                    }
+                }
+            }
+            let mut toks: Vec<&str> = all.into_iter().filter(|x| !x.starts_with('@')).collect();
             let mut faults = vec![];
             if let Some(last) = toks.last() {
                 if last.starts_with('!') {
